@@ -216,6 +216,33 @@ func runC14(a *A) {
 			sub := specCallee(res, cs[0].In)
 			a.Evals++
 			a.touch(cal)
+			// a thin wrapper (return inner(args...)) is looked through
+			for d := 0; d < 2; d++ {
+				var inner *ssa.Call
+				nCalls := 0
+				instrs(cal, func(in ssa.Instruction) {
+					if c, ok := in.(*ssa.Call); ok && sub.Exec[c.Block()] {
+						nCalls++
+						inner = c
+					}
+				})
+				if nCalls != 1 || inner.Common().StaticCallee() == nil || inner.Common().StaticCallee().Pkg != cal.Pkg || inner.Common().StaticCallee().Blocks == nil || len(cal.Blocks) != 1 {
+					break
+				}
+				direct := true
+				for _, ret := range sub.Returns {
+					if len(ret.Results) != 1 || ret.Results[0] != ssa.Value(inner) {
+						direct = false
+					}
+				}
+				if !direct {
+					break
+				}
+				sub = specCallee(sub, inner)
+				cal = inner.Common().StaticCallee()
+				a.Evals++
+				a.touch(cal)
+			}
 			var bufP ssa.Value
 			for _, p := range cal.Params {
 				if typeIs(p.Type(), "bytes", "Buffer") {
